@@ -2,9 +2,9 @@
   C02: the render log of the editor model is coherent.  Part 4 — the loops of `readline_edit`.
 
   Given that every command keeps the screen in step (`Pres (execute cmd)`, see `Props/C02.lean` for what is
-  proved of it), and so do listing completion and incremental search (hypotheses `hcl`, `hris`; the latter is false in general —
-  the search can leave its own prompt on the screen, finding D42 — and true without stored history), so do circular
-  completion, the dispatch loop and the main loop.  The log of a
+  proved of it), and so does listing completion (hypothesis `hcl`), so do circular completion, incremental search (since the repair
+  of D42 every way out of the search repaints under the read's own prompt; inside it the search prompt is the
+  prompt on display, `ShA`), the dispatch loop and the main loop.  The log of a
   whole read — without the final `writeln` — is then coherent and replays without panic.
 -/
 import Rl.Lemmas.RenderLogLift
@@ -32,7 +32,7 @@ theorem lk_lbQuiet {α : Type} (op : LM α) : Keeps Ed.lk (lbQuiet op) := by
 
 theorem lk_getLine : Keeps Ed.lk getLine := ⟨fun _ => rfl⟩
 
-theorem Est.bind_pres {α β : Type} {m : EM α} {g : α → EM β} (hm : Est S U cfg m) (hg : ∀ a, Pres S U cfg (g a)) :
+theorem Est.bind_pres {α β : Type} {m : EM α} {g : α → EM β} (hm : Est S U cfg m) (hg : ∀ a, Pres S U cfg (Sh S U cfg) (g a)) :
     Est S U cfg (m >>= g) := by
   constructor
   intro s h
@@ -48,7 +48,7 @@ include hc hprompt
 set_option linter.unusedSectionVars false
 
 /-- `edit_move`: a motion of the line buffer, then `move_cursor` if it moved -/
-theorem pres_editMove {op : LM Bool} (hop : MoveOK op) : Pres S U cfg (editMove S U cfg op) := by
+theorem pres_editMove {op : LM Bool} (hop : MoveOK op) : Pres S U cfg (Sh S U cfg) (editMove S U cfg op) := by
   constructor
   intro s h
   unfold editMove
@@ -84,25 +84,25 @@ theorem moveOK_moveBufferEnd : MoveOK (LB.moveBufferEnd S U) := by
 theorem est_lb_refresh {α : Type} (op : LM α) : Est S U cfg (do let _ ← lb S U op; refreshLine S U cfg) :=
   Est.bind_keeps (lk_lb op) fun _ => est_refreshLine hc hprompt
 
-variable (hnext : ∀ fuel sea iep, Pres S U cfg (nextCmd S U cfg fuel sea iep))
+variable (hnext : ∀ fuel sea iep, Pres S U cfg (Sh S U cfg) (nextCmd S U cfg fuel sea iep))
 include hnext
 
 theorem pres_completeCircular (start : Nat) (cands : List Text) (mark : Nat) (backup : Text) (backupPos : Nat)
-    (fuel i : Nat) : Pres S U cfg (completeCircular S U cfg start cands mark backup backupPos fuel i) := by
+    (fuel i : Nat) : Pres S U cfg (Sh S U cfg) (completeCircular S U cfg start cands mark backup backupPos fuel i) := by
   induction fuel generalizing i with
   | zero => unfold completeCircular; exact Pres.exit _
   | succ k ih =>
     unfold completeCircular
     apply Pres.of_est
-    have hfin : Pres S U cfg (do truncateChanges mark; Pure.pure none : EM (Option Cmd)) :=
+    have hfin : Pres S U cfg (Sh S U cfg) (do truncateChanges mark; Pure.pure none : EM (Option Cmd)) :=
       Pres.bind (Pres.of_keeps (sk_truncateChanges _)) fun _ => Pres.pure _
-    have hab1 : Pres S U cfg (do
+    have hab1 : Pres S U cfg (Sh S U cfg) (do
         lb S U (LB.update S U backup backupPos)
         refreshLine S U cfg
         truncateChanges mark
         Pure.pure none : EM (Option Cmd)) :=
       Pres.of_est (Est.bind_keeps (lk_lb _) fun _ => Est.bind_pres (est_refreshLine hc hprompt) fun _ => hfin)
-    have hcont : ∀ ab : EM (Option Cmd), Pres S U cfg ab → Est S U cfg (do
+    have hcont : ∀ ab : EM (Option Cmd), Pres S U cfg (Sh S U cfg) ab → Est S U cfg (do
         refreshLine S U cfg
         let cmd ← nextCmd S U cfg k true true
         match cmd with
@@ -126,71 +126,118 @@ theorem pres_completeCircular (start : Nat) (cands : List Text) (mark : Nat) (ba
       · exact hcont _ hab1
     · exact Est.bind_keeps (lk_lb _) fun _ => hcont _ hfin
 
-/-- without stored history `C-r` does nothing -/
-theorem pres_ris_of_hist_nil (h : cfg.hist = []) (fuel : Nat) :
-    Pres S U cfg (reverseIncrementalSearch S U cfg fuel) := by
+omit hnext in
+/-- **incremental search**: inside the loop the search prompt, the line and the cursor are shown at every
+    callback; every way out (abort, or any other command since the repair of D42) repaints under the read's own
+    prompt -/
+theorem est_searchLoop (mark : Nat) (backup : Text) (backupPos : Nat) :
+    ∀ (fuel : Nat) (sb : Text) (hi : Nat) (d : Dir) (succ : Bool),
+      Est S U cfg (searchLoop S U cfg mark backup backupPos fuel sb hi d succ) := by
+  intro fuel
+  induction fuel with
+  | zero => intro sb hi d succ; unfold searchLoop; exact ⟨fun s h => h.ok⟩
+  | succ fuel ih =>
+    intro sb hi d succ
+    unfold searchLoop
+    constructor
+    intro s h
+    simp only [wp_bind]
+    refine wp_mono (wp_refreshPromptAndLine_sha hc hprompt _ ⟨sb, succ, rfl⟩ h) (fun _ s1 h1 => ?_) (fun _ _ e => e)
+    refine wp_mono ((pres_nextCmd_any hc hprompt fuel true true).h s1 h1) (fun cmd s2 h2a => ?_) (fun _ _ e => e)
+    have h2 : LogInv S U cfg s2 := h2a.inv
+    have hds : ∀ (sb : Text) (hi : Nat) (d : Dir),
+        wp (match (memHist cfg).search sb hi d with
+            | some (idx, entry, pos) => do
+              lb S U (LB.update S U entry pos)
+              searchLoop S U cfg mark backup backupPos fuel sb idx d true
+            | none => searchLoop S U cfg mark backup backupPos fuel sb hi d false)
+          (fun _ s' => Sh S U cfg s') (fun _ s' => LogOK S U cfg s') s2 := by
+      intro sb hi d
+      cases (memHist cfg).search sb hi d with
+      | none => exact (ih _ _ _ _).h s2 h2
+      | some r =>
+        obtain ⟨idx, entry, pos⟩ := r
+        exact (Est.bind_keeps (lk_lb _) fun _ => ih _ _ _ _).h s2 h2
+    split
+    · exact hds _ _ _
+    · exact (ih _ _ _ _).h s2 h2
+    · split
+      · exact hds _ _ _
+      · exact (ih _ _ _ _).h s2 h2
+    · split
+      · exact hds _ _ _
+      · exact (ih _ _ _ _).h s2 h2
+    · exact (Est.bind_keeps (lk_lb _) fun _ => Est.bind_pres (est_refreshLine hc hprompt) fun _ =>
+        Pres.bind (Pres.of_keeps (sk_truncateChanges _)) fun _ => Pres.pure _).h s2 h2
+    · exact (Est.bind_pres (est_refreshLine hc hprompt) fun _ =>
+        Pres.bind (Pres.of_keeps sk_changesEnd) fun _ => Pres.pure _).h s2 h2
+
+omit hnext in
+theorem pres_reverseIncrementalSearch (fuel : Nat) :
+    Pres S U cfg (Sh S U cfg) (reverseIncrementalSearch S U cfg fuel) := by
   unfold reverseIncrementalSearch
-  simp only [h, List.isEmpty_nil, if_true]
-  exact Pres.pure _
+  split
+  · exact Pres.pure _
+  · exact Pres.bind (Pres.of_keeps sk_changesBegin) fun _ => Pres.bind (Pres.of_keeps sk_getLine) fun _ =>
+      Pres.of_est (est_searchLoop hc hprompt _ _ _ _ _ _ _ _)
 
-variable (hcl : ∀ fuel, Pres S U cfg (completeLine S U cfg fuel))
-variable (hris : ∀ fuel, Pres S U cfg (reverseIncrementalSearch S U cfg fuel))
-include hcl hris
+variable (hcl : ∀ fuel, Pres S U cfg (Sh S U cfg) (completeLine S U cfg fuel))
+include hcl
 
-theorem pres_preCmds (fuel : Nat) (cmd : Cmd) : Pres S U cfg (preCmds S U cfg fuel cmd) := by
+theorem pres_preCmds (fuel : Nat) (cmd : Cmd) : Pres S U cfg (Sh S U cfg) (preCmds S U cfg fuel cmd) := by
   induction fuel generalizing cmd with
   | zero => unfold preCmds; exact Pres.exit _
   | succ k ih =>
     have h1 := hcl k
-    have h2 := hris k
+    have h2 := pres_reverseIncrementalSearch hc hprompt (S := S) (U := U) (cfg := cfg) k
     unfold preCmds
     sh_pres [ih]
 
 variable (hctl : ∀ c, isC0Control c = true → U.cwidth c = 0)
-variable (hexec : ∀ cmd, Pres S U cfg (execute S U cfg cmd))
+variable (hexec : ∀ cmd, Pres S U cfg (Sh S U cfg) (execute S U cfg cmd))
 include hctl hexec
 
-theorem pres_editInsert (ch : Char) (n : Nat) : Pres S U cfg (editInsert S U cfg ch n) :=
+theorem pres_editInsert (ch : Char) (n : Nat) : Pres S U cfg (Sh S U cfg) (editInsert S U cfg ch n) :=
   ⟨fun _ h => wp_editInsert_sh hc hprompt hctl ch n h⟩
 
-theorem pres_mainLoop (fuel : Nat) : Pres S U cfg (mainLoop S U cfg fuel) := by
+theorem pres_mainLoop (fuel : Nat) : Pres S U cfg (Sh S U cfg) (mainLoop S U cfg fuel) := by
   induction fuel with
   | zero => unfold mainLoop; exact Pres.exit _
   | succ k ih =>
     have h1 := hnext k false false
-    have h2 := fun cmd => pres_preCmds hc hprompt hnext hcl hris k cmd
+    have h2 := fun cmd => pres_preCmds hc hprompt hnext hcl k cmd
     have h3 := pres_refreshLine hc hprompt (S := S) (U := U) (cfg := cfg)
-    have h4 := fun c n => pres_editInsert hc hprompt hnext hcl hris hctl hexec c n
+    have h4 := fun c n => pres_editInsert hc hprompt hnext hcl hctl hexec c n
     unfold mainLoop
     sh_pres [h2, h3, h4, hexec]
 
-omit hnext hcl hris hexec in
+omit hnext hcl hexec in
 /-- three commands of `execute`, as samples of how a command is lifted once its edit function is:
     `unfold execute` and the structural tactic -/
-theorem pres_execute_selfInsert (n : Nat) (c : Char) : Pres S U cfg (execute S U cfg (.selfInsert n c)) := by
-  have h4 : ∀ c n, Pres S U cfg (editInsert S U cfg c n) :=
+theorem pres_execute_selfInsert (n : Nat) (c : Char) : Pres S U cfg (Sh S U cfg) (execute S U cfg (.selfInsert n c)) := by
+  have h4 : ∀ c n, Pres S U cfg (Sh S U cfg) (editInsert S U cfg c n) :=
     fun c n => ⟨fun _ h => wp_editInsert_sh hc hprompt hctl c n h⟩
   unfold execute
   sh_pres [h4]
 
-omit hnext hcl hris hexec hctl in
-theorem pres_execute_repaint : Pres S U cfg (execute S U cfg .repaint) := by
+omit hnext hcl hexec hctl in
+theorem pres_execute_repaint : Pres S U cfg (Sh S U cfg) (execute S U cfg .repaint) := by
   have h3 := pres_refreshLine hc hprompt (S := S) (U := U) (cfg := cfg)
   unfold execute
   sh_pres [h3]
 
-omit hnext hcl hris hexec hctl in
-theorem pres_execute_move_endOfBuffer : Pres S U cfg (execute S U cfg (.move .endOfBuffer)) := by
+omit hnext hcl hexec hctl in
+theorem pres_execute_move_endOfBuffer : Pres S U cfg (Sh S U cfg) (execute S U cfg (.move .endOfBuffer)) := by
   have h3 := pres_editMove hc hprompt (moveOK_moveBufferEnd (S := S) (U := U) hc hprompt)
   unfold execute
   sh_pres [h3]
 
-omit hnext hcl hris hexec hctl in
-theorem pres_refreshLineWithMsg : Pres S U cfg (refreshLineWithMsg S U cfg) :=
+omit hnext hcl hexec hctl in
+theorem pres_refreshLineWithMsg : Pres S U cfg (Sh S U cfg) (refreshLineWithMsg S U cfg) :=
   ⟨fun _ h => wp_refreshLineWithMsg_sh hc hprompt h.inv⟩
 
-omit hnext hcl hris hexec hctl in
-theorem pres_moveCursor : Pres S U cfg (moveCursor S U cfg) :=
+omit hnext hcl hexec hctl in
+theorem pres_moveCursor : Pres S U cfg (Sh S U cfg) (moveCursor S U cfg) :=
   ⟨fun _ h => wp_moveCursor_sh hc hprompt h.tsh⟩
 
 /-- **the log of a whole read** (before the final `writeln`) replays coherently -/
@@ -210,7 +257,7 @@ theorem readline_prog_logOK (ring : KillRing) (left right : Text) (input : Input
       mainLoop S U cfg (input.size + 2)
       editMove S U cfg (LB.moveBufferEnd S U) : EM Unit) :=
     Est.bind_pres (est_refreshLine hc hprompt) fun _ =>
-      Pres.bind (pres_mainLoop hc hprompt hnext hcl hris hctl hexec _) fun _ =>
+      Pres.bind (pres_mainLoop hc hprompt hnext hcl hctl hexec _) fun _ =>
         pres_editMove hc hprompt (moveOK_moveBufferEnd hc hprompt)
   have hall : Est S U cfg (do
       if !(left.isEmpty && right.isEmpty) then
